@@ -256,7 +256,11 @@ class Gen:
     def proto_call(self, d):
         k = self.r.below(10)
         path = self.r.choice(["String.prototype", "String.prototype", "X.prototype", "a.b", "f()", "''", "o[k]", "this"])
+        if self.effectful:
+            path = "String.prototype"
         m = self.method()
+        if self.effectful and m not in ("substring", "trim", "trimStart", "trimEnd", "concat", "slice", "replace", "replaceAll", "padStart", "padEnd", "repeat", "toLowerCase", "split"):
+            m = "trim"
         ca = self.r.choice(["call", "call", "apply"])
         if k < 1:
             return path + "." + m + "." + ca + "()"
@@ -369,9 +373,9 @@ class Gen:
                 return "for (const q of " + e() + ") " + self.expr_stmt(d - 1)
             if j == 2:
                 return "for (const q in " + e() + ") { " + self.stmts(d - 1, 1) + " }"
-            if j == 3:
+            if j == 3 or (self.effectful and j < 3):
                 return "while (" + e() + ") { " + self.stmts(d - 1, 2) + " break; }"
-            if j == 4:
+            if j == 4 and not self.effectful:
                 return "do " + self.expr_stmt(d - 1) + " while (" + e() + ");"
             return "for (;;) { " + self.stmts(d - 1, 1) + " break; }"
         if k < 60:
@@ -702,4 +706,136 @@ def literal_requests(seed, n):
         if g.chance(1, 6):
             cfg['literals'] = False
         out.append({"id": "literal-%d" % i, "cfg": cfg, "src": src, "file": "test.js", "tags": ['literal']})
+    return out
+
+
+# -------------------------------------------------------------------- malformed inputs / faults (C13)
+
+def mutate_text(r: SplitMix64, src: str) -> str:
+    if not src:
+        return src
+    k = r.below(9)
+    i = r.below(len(src))
+    j = min(len(src), i + 1 + r.below(6))
+    if k == 0:
+        return src[:i] + src[j:]
+    if k == 1:
+        return src[:i] + src[i:j] * 2 + src[j:]
+    if k == 2:
+        return src[:i] + r.choice(["(", ")", "{", "}", "`", "'", "\"", "/*", "//", "${", "\\", "?.", "=>", "...", "#", "@"]) + src[i:]
+    if k == 3:
+        return src[:i]
+    if k == 4:
+        return src[:i] + "\u0000" + src[i:]
+    if k == 5:
+        return "\ufeff" + src.replace("\n", "\r\n")
+    if k == 6:
+        return src[:i] + r.choice(["\u2028", "é", "𝒳", "\ud7ff", "日本"]) + src[i:]
+    if k == 7:
+        a, b = sorted([i, r.below(len(src))])
+        return src[:a] + src[b:] + src[a:b]
+    return src + r.choice(["\n//# sourceMappingURL=", "\n//# sourceMappingURL=x.map", "\n/*# sourceMappingURL=y.map */", "\n//# sourceMappingURL=data:application/json;base64,e30=",
+                           "\n//# sourceMappingURL=data:application/json;base64,!!!!", "\n//@ sourceMappingURL=z.map"])
+
+
+MAP_OK = '{"version":3,"sources":["orig.ts"],"names":["n1"],"mappings":"AAAA,CAACA;AACD"}'
+MAP_INDEX = '{"version":3,"sections":[{"offset":{"line":0,"column":0},"map":{"version":3,"sources":["a.js"],"names":[],"mappings":"AAAA"}}]}'
+
+
+def mal_requests(seed, n):
+    """arbitrary text, token-level mutations of valid programs, odd file names, every failure mode of
+    the source-map reader"""
+    r = SplitMix64(seed)
+    from vlib import DEFAULT_CFG
+    import base64
+    out = []
+    base = gen_requests(r.next(), n, depth=2, cfg_mode='mixed')
+    files_pool = ["test.js", "", "/", "a", "dir/", "/abs/x.js", "../up.js", "./x.js", "C:\\win\\x.js", "x" * 300 + ".js", "é/ü.js", "a\u0000b.js", ".", ".."]
+    for i, q in enumerate(base):
+        g = r.fork()
+        src = q['src']
+        kind = g.below(10)
+        if kind < 4:
+            for _ in range(1 + g.below(3)):
+                src = mutate_text(g, src)
+        elif kind == 4:
+            src = "".join(chr(32 + g.below(95)) for _ in range(g.below(200)))
+        elif kind == 5:
+            src = "".join(g.choice(["(", ")", "{", "}", "[", "]", "`", "${", "a", "+", "?.", "=>", "'", "\n", ";", "function", " ", "=", "...", "/", "*"]) for _ in range(g.below(120)))
+        files = {}
+        req = {"id": "mal-%d" % i, "cfg": q['cfg'], "src": src, "file": g.choice(files_pool), "tags": ['mal', 'k%d' % kind]}
+        if kind >= 6:
+            # a valid, modified program with a source-map reference of every kind
+            body = "function f(a, b){ return a + b(); }\n"
+            ref_kind = g.below(12)
+            url = "x.map"
+            if ref_kind == 0:
+                url = "data:application/json;base64," + base64.b64encode(MAP_OK.encode()).decode()
+            elif ref_kind == 1:
+                url = "data:application/json;base64," + base64.b64encode(b"{not json").decode()
+            elif ref_kind == 2:
+                url = "data:application/json;base64,@@@not-base64@@@"
+            elif ref_kind == 3:
+                url = "data:application/json;base64," + base64.b64encode(MAP_INDEX.encode()).decode()
+            elif ref_kind == 4:
+                url = "ok.map"; files = {"%PARENT%/ok.map": MAP_OK}
+            elif ref_kind == 5:
+                url = "missing.map"; files = {"%PARENT%/missing.map": {"error": "notfound"}}
+            elif ref_kind == 6:
+                url = "dir.map"; files = {"%PARENT%/dir.map": {"error": "isdir"}}
+            elif ref_kind == 7:
+                url = "denied.map"; files = {"%PARENT%/denied.map": {"error": "denied"}}
+            elif ref_kind == 8:
+                url = "/abs/ok.map"; files = {"/abs/ok.map": MAP_OK}
+            elif ref_kind == 9:
+                url = "bad.map"; files = {"%PARENT%/bad.map": "\u0000\u0001garbage"}
+            elif ref_kind == 10:
+                url = "idx.map"; files = {"%PARENT%/idx.map": MAP_INDEX}
+            else:
+                url = g.choice(["", " ", "é" * 50 + "/m.map", "a" * 5000, "data:", "data:application/json;base64,", "http://x/y.map"])
+            style = g.below(4)
+            if style == 0:
+                src = body + "//# sourceMappingURL=" + url
+            elif style == 1:
+                src = body + "/*# sourceMappingURL=" + url + " */"
+            elif style == 2:
+                src = "//# sourceMappingURL=" + url + "\n" + body + "//# sourceMappingURL=" + url + "\n"
+            else:
+                src = body + "//#   sourceMappingURL=" + url + "   \n"
+            req['src'] = src
+            import os.path
+            parent = os.path.dirname(req['file']) if req['file'] not in ("", "/") else ""
+            req['files'] = {k.replace("%PARENT%/", (parent + "/") if parent else ""): v for k, v in files.items()}
+            req['cfg'] = dict(DEFAULT_CFG, chainSourceMap=g.chance(1, 2), comments=g.chance(1, 2))
+            if g.chance(1, 10):
+                req['parent_none'] = True
+            req['tags'].append('ref%d' % ref_kind)
+        out.append(req)
+    return out
+
+
+def exec_requests(seed, n, depth=3):
+    """programs meant to be *run*: a `main` function whose body is generated statements over observable
+    free variables, plus immediately-invoked closures"""
+    r = SplitMix64(seed)
+    out = []
+    for i in range(n):
+        gr = r.fork()
+        cfg = gen_config(gr, full=True)
+        cfg["localVarPrefix"] = "t"
+        names = [m["src"] for m in cfg["csiMethods"] if not m.get("operator")]
+        g = Gen(gr, methods=(names + ["custom"]) if names else None, effectful=True)
+        g.tags = set()
+        body = g.directives() + g.stmts(depth, 4)
+        k = gr.below(6)
+        if k == 0:
+            body += " return ((v, w = v + a) => v + w + b())(c, s);"
+        elif k == 1:
+            body += " return (function(n){ return n + this.p + arguments.length; }).call(o, a + b);"
+        elif k == 2:
+            body += " var acc = ''; for (const q of [a, b, c]) { acc += q + s.trim(); } return acc;"
+        src = "function main(p0, p1, p2){ " + body + " }"
+        if gr.chance(1, 8):
+            src = "'use strict'; " + src
+        out.append({"id": "exec-%d" % i, "cfg": cfg, "src": src, "file": "prog.js", "tags": sorted(g.tags) + ['exec']})
     return out
